@@ -224,6 +224,9 @@ fn misc_exprs() -> Vec<String> {
         "x in (y ? [1] : [2])", "(x ? y : z) ? (y ? 1 : 2) : (z ? 3 : 4)", "x ? y ? 1 : 2 : 3", "x ? 1 : y ? 2 : z ? 3 : 4",
         "size(x ? 'a' : 'bc')", "int(x || y)", "type(x ? 1 : 'a')", "timestamp(x).getHours(y ? 'UTC' : z)", "now()", "[now()][0]",
         "l.map(v, now())", "match x { case >y ? 1 : 2: 3 }",
+        // double negation inside the span of a jump
+        "x || !!y", "x && !!y", "x ? !!y : z", "x ? y : !!z", "f'{x && !!y}'", "l.map(v, v || !!x)", "match x { case 1: !!y, case _: z }",
+        "(x || !!y) ? 1 : 2", "!!x || !!y", "--x < 0 || y", "x || --y > 0",
     ] {
         v.push(s.to_string());
     }
@@ -444,6 +447,7 @@ enum RVal {
 
 #[derive(Clone, Copy, Debug)]
 enum Ins {
+    PushErr,
     PushT,
     PushF,
     Push1,
@@ -460,6 +464,7 @@ impl Ins {
     fn to_bc(&self) -> ByteCode {
         use rscel::ByteCode as B;
         match self {
+            Ins::PushErr => B::Push(CelValue::from_err(rscel::CelError::DivideByZero)),
             Ins::PushT => B::Push(CelValue::Bool(true)),
             Ins::PushF => B::Push(CelValue::Bool(false)),
             Ins::Push1 => B::Push(CelValue::Int(1)),
@@ -482,7 +487,7 @@ impl Ins {
 }
 
 fn alphabet(len: usize) -> Vec<Ins> {
-    let mut v = vec![Ins::PushT, Ins::PushF, Ins::Push1, Ins::Pop, Ins::Dup, Ins::Not, Ins::Add];
+    let mut v = vec![Ins::PushErr, Ins::PushT, Ins::PushF, Ins::Push1, Ins::Pop, Ins::Dup, Ins::Not, Ins::Add];
     let mut ds: Vec<i32> = (0..=(len as i32 + 2)).collect();
     ds.extend([-(len as i32) - 2, i32::MAX, i32::MIN]);
     for d in ds {
@@ -513,6 +518,7 @@ fn ref_vm(code: &[Ins]) -> Result<RVal, ()> {
             }
         };
         match ins {
+            Ins::PushErr => st.push(RVal::Err),
             Ins::PushT => st.push(RVal::B(true)),
             Ins::PushF => st.push(RVal::B(false)),
             Ins::Push1 => st.push(RVal::I(1)),
@@ -663,7 +669,7 @@ pub fn run(t: Tier) -> i32 {
     let s = Static::new(t);
     let q = Seqs::new(t);
     rep.rule = format!(
-        "programs: {} generated programs (C09's templates in every literal/variable mask, all trees over || && ?: ! with <= {} internal nodes over 4 atoms, match with 0..{} cases over 6 patterns x 6 arms x 4 scrutinees, f-strings, macros with branching bodies, member/index/call chains); for each, every block (program + nested code blocks) is explored as an abstract machine (pc, stack height) over ALL paths: jump targets in [0,len] and forward, no instruction needs more operands than the height, one height per pc, height 1 at the end; the model is bound to the implementation by replaying the real VM trace (hook: block, pc, height before each instruction, height at exit) of every assignment of up to 3 variables over {{true, 0, unbound, 's'}} against the model. vm-sequences: every instruction sequence of length 1..{} over push true/false/1, pop, dup, not, add and jmp / jmp-if-true / jmp-if-false with every forward distance 0..len+2 and three out-of-range distances, loaded through the public deserialiser, against a reference small-step VM. Non-trivial = every compiled program / every sequence",
+        "programs: {} generated programs (C09's templates in every literal/variable mask, all trees over || && ?: ! with <= {} internal nodes over 4 atoms, match with 0..{} cases over 6 patterns x 6 arms x 4 scrutinees, f-strings, macros with branching bodies, member/index/call chains); for each, every block (program + nested code blocks) is explored as an abstract machine (pc, stack height) over ALL paths: jump targets in [0,len] and forward, no instruction needs more operands than the height, one height per pc, height 1 at the end; the model is bound to the implementation by replaying the real VM trace (hook: block, pc, height before each instruction, height at exit) of every assignment of up to 3 variables over {{true, 0, unbound, 's'}} against the model. vm-sequences: every instruction sequence of length 1..{} over push error/true/false/1, pop, dup, not, add and jmp / jmp-if-true / jmp-if-false with every forward distance 0..len+2 and three out-of-range distances, loaded through the public deserialiser, against a reference small-step VM. Non-trivial = every compiled program / every sequence",
         s.progs.len(),
         t.pick(2, 3),
         t.pick(2, 3),
